@@ -183,7 +183,9 @@ def rule_layer(ctx: Ctx, rule: str = "C07.layer"):
                   "; ".join(e.show() for e in later))
 
 
-def rule_adapter(ctx: Ctx):
+def rule_provider_kind(ctx: Ctx, rule: str = "C07.adapter"):
+    """How a provider's attribute is wrapped is decided on the very value the wrapper will use: `getattr(obj, name)` of the provider
+    object - callable -> called through the signature adapter, anything else -> read as a plain value at each evaluation."""
     rep = ctx.rep
     n = 0
     for name in ("Listeners.search_name", "Listeners._search_callable"):
@@ -196,25 +198,46 @@ def rule_adapter(ctx: Ctx):
                     continue
                 b = t.elts[1]
                 if not (isinstance(b, ast.Call) and show(b.func) in ("partial", "functools.partial") and b.args):
-                    rep.unrecognised("C07.adapter", y.loc(), f"builder `{show(b)}` is not a partial application")
+                    rep.unrecognised(rule, y.loc(), f"builder `{show(b)}` is not a partial application")
                 builder = show(b.args[0])
-                prior = [(xshow(x.term, evs), x.x["taken"]) for x in evs[: y.idx] if x.kind == "branch"]
+                # the decisions of this iteration of the provider loop only (the loop is unrolled: earlier providers took theirs)
+                seg0 = max([x.idx for x in evs[: y.idx] if x.kind == "iter"] or [0])
+                prior = [(xshow(x.term, evs), x.x["taken"]) for x in evs[seg0: y.idx] if x.kind == "branch"]
                 prior_txt = [f"{a}=={b_}" for a, b_ in prior][-3:]
                 n += 1
                 if builder == "callable_method":
-                    rep.ok("C07.adapter", y.loc(), f"{fn.name}: a callable provider is wrapped by the signature adapter", guards=prior_txt)
+                    rep.ok(rule, y.loc(), f"{fn.name}: a callable provider is wrapped by the signature adapter", guards=prior_txt)
                 elif builder == "attr_method":
                     ok = any(a.startswith("callable(") and b_ is False for a, b_ in prior) or fn.name == "_search_property"
-                    rep.check(ok, "C07.adapter", y.loc(), f"{fn.name}: only non-callable attributes are read as plain values", fn.key,
+                    rep.check(ok, rule, y.loc(), f"{fn.name}: only non-callable attributes are read as plain values", fn.key,
                               norm_stmt(y.node), guards=prior_txt)
+                    # ... and "callable" is asked of the attribute of the provider object itself (what attr_method will read), not of
+                    # the class's declaration or of a remembered value
+                    if ok and fn.name != "_search_property" and len(b.args) >= 3:
+                        want = (show(b.args[2]), show(b.args[1]))
+                        for x in evs[seg0: y.idx]:
+                            if x.kind == "branch" and x.x["taken"] is False:
+                                tt = expand(x.term, evs)
+                                if isinstance(tt, ast.Call) and show(tt.func) == "callable" and tt.args:
+                                    a0 = tt.args[0]
+                                    same = isinstance(a0, ast.Call) and show(a0.func) == "getattr" and len(a0.args) >= 2 and \
+                                        (show(a0.args[0]), show(a0.args[1])) == want
+                                    same = same or (isinstance(a0, ast.Attribute) and show(a0.value) == want[0])
+                                    rep.check(same, rule, y.loc(), f"{fn.name}: callability is tested on the provider object's own attribute "
+                                              f"`getattr({want[0]}, {want[1]})`", fn.key, "callable-of " + norm_stmt(y.node), tested=show(a0))
                 elif builder == "event_method":
                     ok = any(a.startswith("isinstance(") and "Event" in a and b_ is True for a, b_ in prior)
-                    rep.check(ok, "C07.adapter", y.loc(), f"{fn.name}: only Event objects are wrapped as event actions", fn.key,
+                    rep.check(ok, rule, y.loc(), f"{fn.name}: only Event objects are wrapped as event actions", fn.key,
                               norm_stmt(y.node), guards=prior_txt)
                 else:
-                    rep.violation("C07.adapter", y.loc(), f"{fn.name}: provider wrapped by `{builder}` bypasses the signature adapter",
+                    rep.violation(rule, y.loc(), f"{fn.name}: provider wrapped by `{builder}` bypasses the signature adapter",
                                   fn.key, norm_stmt(y.node))
-    rep.floor("C07.adapter", "builders yielded by the listener search", n, 4)
+    rep.floor(rule, "builders yielded by the listener search", n, 4)
+
+
+def rule_adapter(ctx: Ctx):
+    rep = ctx.rep
+    rule_provider_kind(ctx)
     cm = ctx.fn("callable_method")
     closures = [f for f in cm.module.all_functions if f.parent is cm]
     rep.floor("C07.adapter", "adapter closures of callable_method", len(closures), 2)
